@@ -3,7 +3,7 @@ import Ampy.Lemmas.StageCanon
 import Ampy.Props.C05
 /-!
 The hypothesis structures of the project are satisfiable: a concrete kernel (`demoKern`: real sorts, the
-exact percentile, one cluster, one populated mixture component), the default parameters (`demoPrms`) and
+exact percentile, a threshold clustering, one populated mixture component), the default parameters (`demoPrms`) and
 a concrete scene (`demoScene`) meet `KernOK`, `MetKOK`, `PrmsOK`, `SepShape`, `SepNonneg`,
 `SelectedPopulated`, and through them `run_total`, `Canon` and `IdsExact`/`IdsOK` have instances.  None
 of the theorems that assume them is therefore vacuous.
@@ -45,15 +45,16 @@ theorem sortPerm_sorted (l : List Rat) : (applyPerm (sortPerm l) l).Pairwise (·
 
 /-! ### the concrete kernel -/
 
-/-- A kernel made of real sorts, the exact percentile, the identity smoother, one cluster, and mixtures
-that put every point in component `0` with a score that grows with the number of components. -/
+/-- A kernel made of real sorts, the exact percentile, the identity smoother, a clustering that cuts the
+(scaled) height axis at `1/2` (labels `0` below, `1` from there on), and mixtures that put every point in
+component `0` with a score that grows with the number of components. -/
 def demoKern : Kern where
   dtOrder := sortPerm
   pctl := percentile
   ptsOrder := sortPerm
   lowess := fun pts => pts.map (·.2)
   baseOrder := sortPerm
-  cluster := fun _ _ pts => pts.map fun _ => 0
+  cluster := fun _ _ pts => pts.map fun p => if p.2 < 1 / 2 then 0 else 1
   gmm := fun _ vals n => ⟨vals.map (fun _ => 0), (n : Rat)⟩
   bestProb := fun _ _ => 0
   argsort := sortPerm
@@ -162,15 +163,152 @@ theorem boostScores_demo (fits : List GmmFit) (h0 : ∀ f, fits[0]? = some f →
       obtain ⟨f, hf, rfl⟩ := Option.map_eq_some_iff.mp hb
       exact (h0 f hf).2
 
+theorem selectedFit_delta {α} (K : Kern) (P : PPrms α) (hmode : P.gmmMode = "delta") (vals : List Rat)
+    (ncompMax : Nat) :
+    selectedFit K P vals ncompMax =
+      (((List.range (min ncompMax (vals.eraseDups).length)).map fun i =>
+          K.gmm P.gmmScores (Lay.gmmScaled P vals) (i + 1))[
+        bestDelta (boostScores ((List.range (min ncompMax (vals.eraseDups).length)).map fun i =>
+          K.gmm P.gmmScores (Lay.gmmScaled P vals) (i + 1))) P.gmmGain]?).map fun f =>
+        (bestDelta (boostScores ((List.range (min ncompMax (vals.eraseDups).length)).map fun i =>
+          K.gmm P.gmmScores (Lay.gmmScaled P vals) (i + 1))) P.gmmGain + 1, f) := by
+  unfold selectedFit
+  simp only [hmode, if_true]
+  rfl
+
+/-- The scores of the concrete mixtures are `1, 2, 3, …`; those beyond the first are boosted further;
+with a gain `≤ 1` the selection never leaves the first. -/
+theorem demo_select (s : String) (sc : List Rat) (m : Nat) (gain : Rat) (hg : gain ≤ 1) (hsc : sc ≠ []) :
+    bestDelta (boostScores ((List.range m).map fun i => demoKern.gmm s sc (i + 1))) gain = 0 := by
+  obtain ⟨hge, hz⟩ := boostScores_demo ((List.range m).map fun i => demoKern.gmm s sc (i + 1))
+    (by
+      intro f hf
+      rw [List.getElem?_map] at hf
+      obtain ⟨j, hj, rfl⟩ := Option.map_eq_some_iff.mp hf
+      obtain ⟨_, hj⟩ := List.getElem?_eq_some_iff.mp hj
+      rw [List.getElem_range] at hj
+      subst hj
+      refine ⟨?_, ?_⟩
+      · show sc.map (fun _ => 0) ≠ []
+        simpa using hsc
+      · show ((0 + 1 : Nat) : Rat) = 1
+        simp)
+    (by
+      intro f hf
+      obtain ⟨j, _, rfl⟩ := List.mem_map.mp hf
+      show (1 : Rat) ≤ ((j + 1 : Nat) : Rat)
+      have : (1 : Nat) ≤ j + 1 := by omega
+      exact_mod_cast this)
+  apply bestDelta_eq_zero
+  intro m' a b ha hb
+  have h1 := hz b hb
+  have h2 := hge a (List.mem_of_getElem? ha)
+  subst h1
+  rw [mul_one]
+  intro hlt
+  linarith
+
 /-- With the concrete kernel, in mode `delta` with a gain `≤ 1`, the one-component mixture is always the
 one selected, and its only component holds every value: A3 holds. -/
 theorem demoKern_populated_of {α} (P : PPrms α) (hmode : P.gmmMode = "delta") (hg : P.gmmGain ≤ 1) :
     SelectedPopulated demoKern P := by
   intro vals ncompMax n f h i hi
-  unfold selectedFit at h
-  simp only [hmode, if_true] at h
-  obtain ⟨f', hf', he⟩ := Option.map_eq_some_iff.mp h
-  trace_state
-  sorry
+  rw [selectedFit_delta demoKern P hmode] at h
+  by_cases hv : vals = []
+  · subst hv
+    simp at h
+  · have hsc : Lay.gmmScaled P vals ≠ [] := by
+      intro he
+      have := Lay.gmmScaled_length P.gmmRescale vals
+      unfold Lay.gmmScaled at he
+      rw [he] at this
+      exact hv (List.length_eq_zero_iff.mp this.symm)
+    rw [demo_select P.gmmScores _ _ P.gmmGain hg hsc] at h
+    obtain ⟨f', hf', he⟩ := Option.map_eq_some_iff.mp h
+    cases he
+    rw [List.getElem?_map] at hf'
+    obtain ⟨j, _, rfl⟩ := Option.map_eq_some_iff.mp hf'
+    have : i = 0 := by omega
+    subst this
+    show 0 ∈ (Lay.gmmScaled P vals).map (fun _ => 0)
+    rw [List.mem_map]
+    obtain ⟨x, hx⟩ := List.exists_mem_of_ne_nil _ hsc
+    exact ⟨x, hx, rfl⟩
+
+/-- `SelectedPopulated` is satisfiable, together with `KernOK` and `PrmsOK`. -/
+theorem demoKern_populated : SelectedPopulated demoKern demoPrms :=
+  demoKern_populated_of demoPrms rfl (by show (19 / 20 : Rat) ≤ 1; norm_num)
+
+/-! ### a concrete scene -/
+
+/-- Two ceilometers over ten minutes: a low deck near 1000 ft seen by both, a higher one near 3000 ft,
+and a few non-detections. -/
+def demoScene : List (Hit String) := [
+  ⟨"A", -540, some 1000, 1⟩, ⟨"A", -480, some 1010, 1⟩, ⟨"A", -420, some 990, 1⟩,
+  ⟨"A", -360, none, 0⟩,      ⟨"A", -300, some 1020, 1⟩, ⟨"A", -240, some 1000, 1⟩,
+  ⟨"A", -180, some 3000, 1⟩, ⟨"A", -120, some 1010, 1⟩, ⟨"A", -60, some 980, 1⟩,
+  ⟨"A", 0, some 1000, 1⟩,
+  ⟨"B", -540, some 3010, 1⟩, ⟨"B", -480, some 2990, 1⟩, ⟨"B", -420, none, 0⟩,
+  ⟨"B", -360, some 3000, 1⟩, ⟨"B", -300, some 3020, 1⟩, ⟨"B", -240, some 1000, 1⟩,
+  ⟨"B", -180, some 2980, 1⟩, ⟨"B", -120, none, 0⟩,      ⟨"B", -60, some 3000, 1⟩,
+  ⟨"B", 0, some 3010, 1⟩]
+
+/-- The run on the concrete scene returns (from `run_total`, not by evaluation). -/
+theorem demo_run_ok : ∃ c, run demoKern demoPrms demoScene = .ok c :=
+  run_total demoKern demoPrms (demoKern_ok _ (by decide) (by decide)) demoPrms_ok demoKern_populated demoScene
+
+/-- `Canon` has an instance: the four canonical states of the concrete run. -/
+theorem demo_canon : ∃ S1 S2 S3, Canon demoKern demoPrms (construct demoPrms demoScene) S1 S2 S3 := by
+  obtain ⟨c, hc⟩ := demo_run_ok
+  obtain ⟨S1, S2, h⟩ := canon_of_run demoKern demoPrms demoScene c hc
+  exact ⟨S1, S2, c, h⟩
+
+/-- `IdsExact` (hence `IdsOK`) has instances: the three id columns of the concrete run. -/
+theorem demo_idsExact : ∃ c sids gids lids, run demoKern demoPrms demoScene = .ok c ∧
+    c.sids = some sids ∧ c.gids = some gids ∧ c.lids = some lids ∧
+    IdsExact c.data sids ∧ IdsExact c.data gids ∧ IdsExact c.data lids := by
+  obtain ⟨c, hc⟩ := demo_run_ok
+  obtain ⟨sids, gids, lids, h⟩ := C05_every_hit_assigned demoKern demoPrms demoScene
+    (demoKern_ok _ (by decide) (by decide)) c hc
+  exact ⟨c, sids, gids, lids, hc, h⟩
+
+/-- The heights of the concrete scene are in the physical range (`HeightsInRange`). -/
+theorem demoScene_inRange : HeightsInRange demoScene := by
+  have h : ∀ h ∈ demoScene, ∀ y ∈ h.height, 0 ≤ y ∧ y < 100000 := by decide
+  exact fun x hx y hy => h x hx y hy
+
+/-- `TableOK` has instances: the empty table, and the layers table of the concrete run (through
+`metarize_tableOK`, whose hypotheses `MetKOK`, `IdsOK`, `HeightsInRange` are all met here). -/
+theorem tableOK_nil : TableOK [] := ⟨List.Pairwise.nil, by decide, by simp, by simp, by simp⟩
+
+theorem demo_layers_tableOK : ∃ c lay, run demoKern demoPrms demoScene = .ok c ∧ c.layers = some lay ∧
+    TableOK lay := by
+  obtain ⟨c, hc⟩ := demo_run_ok
+  have hK : KernOK demoKern demoPrms.basePerc := demoKern_ok _ (by decide) (by decide)
+  obtain ⟨hd, _, sids, sl, gids, iso, gr, lids, nc, lay, hs, _, hg, _, hl, hm, _, _, _, _, _, e⟩ :=
+    run_parts demoKern demoPrms demoScene c hc
+  have h1 := sliceIds_exact demoKern demoPrms c.data _ hK sids hs
+  have h2 := groupIds_exact demoKern demoPrms c.data _ hK sids sl h1 gids iso hg
+  have h3 := layerIds_exact demoKern demoPrms c.data _ hK gids gr h2 lids nc hl
+  have hdata : c.data = demoScene := hd
+  have hr : HeightsInRange c.data := by rw [hdata]; exact demoScene_inRange
+  exact ⟨c, lay, hc, e, metarize_tableOK _ _ _ _ _ _ hK.met h3.toOK hr (by decide) lay hm⟩
+
+/-- Checked by kernel evaluation: `find_slices` on the concrete scene separates the two height bands
+(non-detections keep `-1`). -/
+example : sliceIds demoKern demoPrms demoScene =
+    .ok [0, 0, 0, -1, 0, 0, 1, 0, 0, 0, 1, 1, -1, 1, 1, 0, 1, -1, 1, 1] := by
+  decide +kernel
+
+/-
+The layers message of the concrete run is "SCT009 SCT029" (two layers).  This is an interpreter
+evaluation (`#eval`, checked below by `#guard_msgs`), not a kernel-checked statement: `decide +kernel`,
+`decide` and `rfl` all get stuck on `List.mergeSort` (well-founded recursion, used by the model in
+`percentile` and `uniqueSorted`), which does not reduce in the kernel.
+-/
+/-- info: some "SCT009 SCT029" -/
+#guard_msgs in
+#eval (run demoKern demoPrms demoScene).toOption.map fun c =>
+  metarMsg demoPrms.msa c.flag (nWhich (c.lids.getD [])) (c.layers.getD [])
 
 end Ampy
